@@ -19,6 +19,7 @@ import zlib
 from mc import env
 rpyc = env.install_sim()
 from mc import sched as S, simos, runner, srvharness as H, explore, canon, refcodec as R     # noqa: E402
+from rpyc.core.async_ import AsyncResultTimeout                                              # noqa: E402
 from rpyc.utils.authenticators import AuthenticationError                                    # noqa: E402
 from rpyc.core import netref                                                                 # noqa: E402
 
@@ -44,9 +45,50 @@ def authenticator(sock):
 VALID_REQ = R.message(R.REQUEST, 1, (1, (R.L_VALUE, ("ping",))))
 
 
+class GoodCls(object):
+    """a class of the well-behaved clients' own: they pass it to the server, which calls it"""
+
+    def __init__(self, v):
+        self.v = v
+
+
+def forge_class_reference(sock):
+    """the hostile client names the good clients' class (same name, same identifier - it runs the same program) in a
+    reference of its own and LIES when the server asks what that class looks like (no methods at all)"""
+    from rpyc.lib import get_id_pack
+    idp = get_id_pack(GoodCls)
+    sock.send(R.message(R.REQUEST, 50, (1, (R.L_TUPLE, ((R.L_REMOTE_REF, idp),)))))
+    sock.settimeout(5)
+    buf = bytearray()
+    for _ in range(50):
+        try:
+            d = sock.recv(4096)
+        except OSError:
+            return
+        if not d:
+            return
+        buf += d
+        while True:
+            r = R.unframe(buf)
+            if r is None:
+                break
+            payload, rest = r
+            buf = bytearray(rest)
+            kind, seq, args = R.decode(payload)
+            if kind == R.REQUEST and args[0] == 16:          # HANDLE_INSPECT
+                sock.send(R.message(R.REPLY, seq, (R.L_VALUE, ())))
+            elif kind == R.REQUEST:
+                sock.send(R.message(R.EXCEPTION, seq, (("builtins", "ValueError"), ("no",), (), "tb")))
+            elif seq == 50:
+                return
+
+
 def scripts(tier):
-    """name -> list of actions: ('send', bytes) | ('close',) | ('hold',) (stay connected, silent)"""
+    """name -> list of actions: ('send', bytes) | ('close',) | ('hold',) (stay connected, silent) | ('reset',) |
+    ('converse', fn) (a scripted conversation on the raw socket)"""
     sc = {}
+    sc["forged-class-reference-then-reset"] = [("converse", forge_class_reference), ("reset",)]
+    sc["forged-class-reference-then-hold"] = [("converse", forge_class_reference), ("hold",)]
     sc["immediate-disconnect"] = [("close",)]
     sc["reset-while-in-backlog"] = [("reset",)]
     sc["garbage-then-reset"] = [("send", b"\xff\x00junk"), ("reset",)]
@@ -102,6 +144,8 @@ class Hostile(object):
                 if act[0] == "send":
                     if act[1]:
                         s.send(act[1])
+                elif act[0] == "converse":
+                    act[1](s)
                 elif act[0] == "close":
                     s.close()
                     return "closed"
@@ -125,6 +169,10 @@ def safe(fn):
             return fn()
         except S.SimAbort:
             raise
+        except EOFError:
+            return ("EOFError",)
+        except AsyncResultTimeout:
+            return ("timeout",)
         except Exception as ex:    # noqa
             return ("raised", type(ex).__name__)
     return run
@@ -167,6 +215,7 @@ def scenario(kind, auth, script, ngood, burst=1, hostile_magic=None):
             obs["g%d.get" % i] = g.actor.call(safe(lambda g=g: g.call("get")), 100)[:2]
             obs["g%d.ident" % i] = g.actor.call(safe(lambda g=g: g.call("ident")), 100)[:2]
             obs["g%d.ref" % i] = g.actor.call(safe(lambda i=i: ("value", lent[i].who())), 100)
+            obs["g%d.class" % i] = g.actor.call(safe(lambda g=g, i=i: ("value", g.conn.root.build(GoodCls, 40 + i).v)), 100)
         # an identifier harvested on connection 0 must be refused on connection 1
         if ngood >= 2 and 0 in lent:
             def forge():
@@ -185,6 +234,7 @@ def scenario(kind, auth, script, ngood, burst=1, hostile_magic=None):
         obs["new.connect"] = n.actor.call(safe(lambda: n.connect(pre)), 100)
         obs["new.echo"] = n.actor.call(safe(lambda: n.call("echo", "fresh")), 100)[:2]
         obs["new.get"] = n.actor.call(safe(lambda: n.call("get")), 100)[:2]
+        obs["new.class"] = n.actor.call(safe(lambda: ("value", n.conn.root.build(GoodCls, 7).v)), 100)
         obs["accept-thread-alive"] = st.is_alive()
         obs["instances"] = len(H.Svc.instances)
         lent.clear()
@@ -256,9 +306,11 @@ def expected(ngood):
         exp["g%d.put" % i] = ("value", 1)
         exp["g%d.echo2" % i] = ("value", ("echo", 100 + i))
         exp["g%d.get" % i] = ("value", ("mine-%d" % i,))
+        exp["g%d.class" % i] = ("value", 40 + i)
     exp["new.connect"] = ("connected",)
     exp["new.echo"] = ("value", ("echo", "fresh"))
     exp["new.get"] = ("value", ())
+    exp["new.class"] = ("value", 7)
     exp["accept-thread-alive"] = True
     return exp
 
